@@ -116,7 +116,7 @@ func runFaultCase(e *Env, idx int, c FCase) {
 			needProxy = true
 		}
 	}
-	cl, err := h.NewCluster(h.Options{N: c.N, Block: c.Block, DialTimeout: 300 * time.Millisecond, Proxies: needProxy, Down: down})
+	cl, err := h.NewCluster(h.Options{N: c.N, Block: c.Block, DialTimeout: time.Second, Proxies: needProxy, Down: down})
 	if err != nil {
 		R.Inconc("cluster: " + err.Error())
 		return
@@ -138,7 +138,15 @@ func runFaultCase(e *Env, idx int, c FCase) {
 	}
 	healthy := c.N - len(F)
 	det := func(extra string, out Outcome, invs []*h.Inv) map[string]any {
-		return map[string]any{"case": c, "error": errText(out.Err), "invocations": invs, "note": extra}
+		m := map[string]any{"case": c, "error": errText(out.Err), "invocations": invs, "note": extra}
+		if e.Hooks != nil {
+			ev := map[string][]string{}
+			for i, id := range cl.IDs {
+				ev[fmt.Sprintf("node %d (index %d) lastErr=%v", id, i, cl.Node(i).LastErr())] = e.Hooks.MsgEvents(id)
+			}
+			m["per_message_events(diagnosis)"] = ev
+		}
+		return m
 	}
 	for call := 0; call < c.Calls; call++ {
 		tok := h.NewToken()
@@ -172,7 +180,10 @@ func runFaultCase(e *Env, idx int, c FCase) {
 			time.Sleep(5 * time.Millisecond)
 		}
 		var out Outcome
+		// (the context is only cancelled when the case is over: a context that ends right after a call returned can, in a
+		// nanosecond window, still make gorums reset the node's stream, which is not this grid's subject)
 		ctx, cancel := context.WithTimeout(context.Background(), 30*time.Second)
+		defer cancel()
 		t := h.Go("c07:"+c.Variant, func() {
 			switch c.Variant {
 			case "QC":
@@ -264,7 +275,6 @@ func runFaultCase(e *Env, idx int, c FCase) {
 			}
 		}
 		hi := h.Await(t, e.W+4*time.Second)
-		cancel()
 		for _, p := range plans {
 			p.Open()
 		}
@@ -295,7 +305,7 @@ func runFaultCase(e *Env, idx int, c FCase) {
 		for _, inv := range invs {
 			for id, r := range inv.Reps {
 				i := cl.Index(id)
-				if i < 0 || failNow[i] && c.Fail[i] != "reset-before" && c.Fail[i] != "reset-while-queued" || r.Call != tok || r.Node != id {
+				if i < 0 || failNow[i] && c.Fail[i] != "reset-before" && c.Fail[i] != "reset-while-queued" && !(call > 0 && strings.HasPrefix(c.Fail[i], "reset")) || r.Call != tok || r.Node != id {
 					R.Violate("failed-node-in-reply-set", fmt.Sprintf("quorum function was shown an entry for node %d (index %d, failure %q)", id, i, c.Fail[max(i, 0)]), det("", out, invs))
 					return
 				}
@@ -307,6 +317,12 @@ func runFaultCase(e *Env, idx int, c FCase) {
 		for i, k := range c.Fail {
 			if call == 0 && (k == "reset-before" || k == "reset-while-queued") {
 				flexible[i] = true
+			}
+			// in a later call a node whose connection was reset earlier is normally healthy again, but the broken stream may
+			// also only be discovered by this call's write (bare EOF): it may answer or fail, never both
+			if call > 0 && strings.HasPrefix(k, "reset") {
+				flexible[i] = true
+				failNow[i] = true
 			}
 		}
 		replied := map[int]bool{}
@@ -359,6 +375,10 @@ func runFaultCase(e *Env, idx int, c FCase) {
 			for id, lines := range pe.Nodes {
 				i := cl.Index(id)
 				switch {
+				case i >= 0 && !failNow[i] && c.Block && cl.Node(i).LastErr() != nil && strings.Contains(cl.Node(i).LastErr().Error(), "context deadline exceeded"):
+					// the blocking dial to a healthy server timed out (machine overloaded): gorums then legitimately reports the node as down
+					R.Inconc(fmt.Sprintf("blocking dial to a healthy server timed out under load (node index %d): %v", i, lines))
+					return
 				case i < 0 || !failNow[i]:
 					R.Violate("error-for-healthy-node", fmt.Sprintf("node %d (index %d) did not fail but is reported: %v", id, i, lines), det("", out, invs))
 					return
